@@ -79,6 +79,12 @@ CLAIMS = {
          "num_machines -- via the C04 slot theorem, so the zip with the caller's buffer never truncates or overruns), C20_fields, C20_duration_split, C20_null, "
          "C20_start (result code: NullPointer iff out is null; Ok iff UTF-8, every line parses and fractions in [0,1]). The extern \"C\" functions are called with "
          "canary-surrounded buffers and compared with the model and the Rust framework.", "DESIGN.md section 4, C20"),
+ "C14": ("Theorem C14_identity: for EVERY non-empty time-sorted trace (bursts, gaps up to Duration::MAX), every delay including 0, every tape and fuel: with no machines and all events recorded, "
+         "whenever the simulation of the parsed trace returns, every event is one of the four packet events without padding or flags, the client's TunnelSent times are exactly (as multisets) the "
+         "trace's send times, its TunnelRecv times exactly the receive times, and the server shows the mirror image shifted by the delay. Proved by a loop invariant over sim_loop with an exact model "
+         "of std BinaryHeap (heap order lemmas), and C14_window: a trace never trips the pps bottleneck parse_trace derives from it (1 s counts <= 10 x maximal 100 ms count), so no hypothesis on "
+         "the limit remains. Output filters are projections by C19_projection. The model is tied to sim()/sim_advanced()/parse_trace by the differential, including the derived pps value.", "DESIGN.md section 0 and 4, C14"),
+
  "C15": ("Theorems C15_causality (for all machine sets, base-only queues, delays, pps limits, tapes: for every side, kind and time T the TunnelRecv events up to T are at most "
          "the other side's TunnelSent of that kind sent at least one delay before T -- the counting form of an injective matching to earlier sends), C15_conservation (NormalSent <= share, "
          "normal TunnelSent <= NormalSent, peer TunnelRecv <= TunnelSent, peer NormalRecv <= TunnelRecv), C15_complete (exactly the share when the run stops because all normal packets were "
